@@ -25,15 +25,27 @@ class Seed:
         self.pack = pack
         self.trailer_extra = trailer_extra
 
-    def build(self, objects=None):
-        return self.writer(objects).getvalue()
+    def build(self, objects=None, container_hook=None):
+        return self.writer(objects, container_hook).getvalue()
 
-    def writer(self, objects=None):
-        return build_pdf(objects if objects is not None else self.objects, self.root, info=self.info, form=self.form, pack=self.pack, trailer_extra=self.trailer_extra, flate_containers=self.flate_containers, encrypt=self.encrypt, encrypt_skip=self.encrypt_skip)
+    def writer(self, objects=None, container_hook=None):
+        return build_pdf(objects if objects is not None else self.objects, self.root, info=self.info, form=self.form, pack=self.pack, trailer_extra=self.trailer_extra, flate_containers=self.flate_containers, encrypt=self.encrypt, encrypt_skip=self.encrypt_skip, container_hook=container_hook)
+
+    def container_dicts(self):
+        """{kind: dictionary} of the streams the writer adds itself ('objstm', 'xref')."""
+        seen = {}
+        self.writer(None, lambda kind, d: seen.__setitem__(kind, dict(d)))
+        return seen
+
+    def base_writer(self):
+        """The unfaulted document, written once (encrypted seeds draw fresh IVs on every write)."""
+        if getattr(self, "_base", None) is None:
+            self._base = self.writer()
+        return self._base
 
     def container_streams(self):
         """(object number, offset, length) of the payloads of streams the writer added itself (object/xref streams)."""
-        fw = self.writer()
+        fw = self.base_writer()
         return [(n, pos, ln) for (n, pos, ln) in fw.marks.get("stream_data", []) if n not in self.objects]
 
 
@@ -166,7 +178,14 @@ def s_filters():
     # the page shows both images
     o[3][b"Contents"] = [Ref(4, 0), Ref(5, 0), Ref(6, 0), Ref(11, 0)]
     o[11] = content_stream(b"q 10 0 0 10 0 0 cm /P Do Q q 10 0 0 10 50 0 cm /T Do Q")
-    roles = {1: "Catalog", 2: "Pages", 3: "Page", 4: "ContentStream:A85+Fl", 5: "ContentStream:LZW", 6: "ContentStream:AHx+RL", 7: "Font:Std14", 8: "Image:PNGpred", 9: "Image:TIFFpred", 10: "LengthObject", 11: "ContentStream"}
+    ctext = b"BT /F1 12 Tf 30 550 Td (predicted!) Tj ET "  # 40 bytes = 5 rows of 8
+    ctext = ctext[: len(ctext) // 8 * 8]
+    pngc = zlib.compress(encoders.png_predict(ctext, 1, 8, 8, [2, 1, 4, 3, 0]))
+    tifc = encoders.lzw_encode(encoders.tiff_predict(ctext.replace(b"550", b"500"), 2, 4, 8))
+    o[12] = Stream({b"Filter": Name(b"FlateDecode"), b"DecodeParms": {b"Predictor": 12, b"Columns": 8}, b"Length": len(pngc)}, pngc)
+    o[13] = Stream({b"Filter": [Name(b"LZWDecode")], b"DecodeParms": [{b"Predictor": 2, b"Columns": 4, b"Colors": 2, b"BitsPerComponent": 8}], b"Length": len(tifc)}, tifc)
+    o[3][b"Contents"] = [Ref(4, 0), Ref(5, 0), Ref(6, 0), Ref(11, 0), Ref(12, 0), Ref(13, 0)]
+    roles = {1: "Catalog", 2: "Pages", 3: "Page", 4: "ContentStream:A85+Fl", 5: "ContentStream:LZW", 6: "ContentStream:AHx+RL", 7: "Font:Std14", 8: "Image:PNGpred", 9: "Image:TIFFpred", 10: "LengthObject", 11: "ContentStream", 12: "ContentStream:PNGpred", 13: "ContentStream:TIFFpred"}
     return Seed("filters", o, roles)
 
 
